@@ -44,6 +44,7 @@ A_D1 == [][~taint' => (C04_Applies(Obs(ep), LastEv) => Chk(D1))]_vars
 A_D2 == [][~taint' => ((C04_Applies(Obs(ep), LastEv) => Chk(D2)))]_vars
 A_D3 == [][~taint' => (C04_Applies(Obs(ep), LastEv) => D3(Obs(ep), LastEv, Out(ep'), Obs(ep'), gap))]_vars
 A_D4 == [][~taint' => (C04_Applies(Obs(ep), LastEv) => Chk(D4))]_vars
+A_D5 == [][~taint' => (C04_Applies(Obs(ep), LastEv) => Chk(D5))]_vars
 A_N1 == [][~taint' => (N1(Obs(ep), Out(ep')))]_vars
 A_N2 == [][~taint' => (N2(Obs(ep), Out(ep'), Obs(ep')))]_vars
 A_N3 == [][~taint' => (N3(Out(ep'), Obs(ep')))]_vars
